@@ -1,3 +1,4 @@
+import copy
 import numpy as np
 import pandas as pd
 from ..entities.paramStruct import ParamStruct
@@ -110,15 +111,18 @@ def read_model_parameters(
     sim_end_date = clock_struct.simulation_end_date
 
     if crop.harvest_date is None:
-        crop = compute_crop_calendar(
-            crop,
+        # the calendar is only needed here for the maturity day: computed on a copy, because the
+        # crop itself is converted (SwitchGDD) once, in compute_variables; converting an already
+        # converted crop a second time loses its flowering and yield-formation periods
+        calendar_crop = compute_crop_calendar(
+            copy.deepcopy(crop),
             clock_struct.planting_dates,
             clock_struct.simulation_start_date,
             clock_struct.simulation_end_date,
             clock_struct.time_span,
             weather_df,
         )
-        mature = int(crop.MaturityCD + 30)
+        mature = int(calendar_crop.MaturityCD + 30)
         plant = pd.to_datetime("1990/" + crop.planting_date)
         harv = plant + np.timedelta64(mature, "D")
         new_harvest_date = str(harv.month) + "/" + str(harv.day)
